@@ -74,7 +74,8 @@ class SoftwareManager:
         :return: A list of all open ports on the Node.
         """
         open_ports = []
-        for software in self.port_protocol_mapping.values():
+        # every installed piece of software counts, not only the one that last claimed a (port, protocol) pair
+        for software in self.software.values():
             if software.operating_state in {ApplicationOperatingState.RUNNING, ServiceOperatingState.RUNNING}:
                 open_ports.append(software.port)
                 if software.listen_on_ports:
@@ -172,6 +173,11 @@ class SoftwareManager:
         for key, value in self.port_protocol_mapping.items():
             if value.name == software_name:
                 self.port_protocol_mapping.pop(key)
+                # other installed software with the same port and protocol takes the pair over again
+                for other in self.software.values():
+                    if (other.port, other.protocol) == key:
+                        self.port_protocol_mapping[key] = other
+                        break
                 break
         for key, value in self._software_class_to_name_map.items():
             if value == software_name:
